@@ -3,8 +3,9 @@ UNBUILT = "contracts for this property are not yet discharged by the verifier (w
 
 claim("C06",
       "Postconditions on the hop-count and bundle-age transformation functions are proved for all 8-bit/64-bit values "
-      "(hop count +1 without wrap, exceed test, age growth in ms); every obligation is an SMT-discharged VC generated from the current source.",
-      "Covers the per-function clauses of C06 only; wire-level byte identity is C01; goroutine fan-out in Core.forward is not modelled. "
+      "(hop count +1 without wrap, exceed test, age block grows by the residence time in milliseconds and the reception time is never reset); "
+      "Bundle.AddExtensionBlock is proved from its body to number the new block differently from every existing block and to keep the existing blocks; every obligation is an SMT-discharged VC generated from the current source.",
+      "Covers the per-function clauses of C06 only; wire-level byte identity is C01; Core.forward (hand-over, previous-node block, refusal for hop limit / lifetime) is not under contract. "
       "Trusted: solvers, go/ssa, SSA->SMT translation, time.Since as an uninterpreted non-negative duration.",
       "DESIGN.md §6 C06")
 
@@ -46,7 +47,8 @@ claim("C11",
       "OutgoingTransfer.NextSegment over a byte-level ghost stream: segments <= mtu, bytes are exactly the next bytes of the stream, START iff first, END exactly when the data "
       "is exhausted (also when the length is a multiple of the segment size), io.EOF only after END; IncomingTransfer.NextSegment appends exactly the segment data, acknowledges "
       "the running byte total, refuses foreign ids and segments after END; XFER_SEGMENT/XFER_ACK/XFER_REFUSE codecs round-trip (C17 contracts).",
-      "Concurrent transfers, acknowledgement routing inside TransferManager.Send/handle (goroutines, channels, timer) and the transport are not decided; io.Pipe/io.ReadFull semantics are a trusted model.",
+      "TransferManager.Send returns nil only when the length reported by its segmenting goroutine equals the last acknowledged length (channel invariants: only genuine errors travel on the error channel); "
+      "concurrent transfers, TransferManager.handle and the transport are not decided; io.Pipe/io.ReadFull semantics are a trusted model; the segmenter preconditions at the goroutine's call site are not established (undecided, not claimed).",
       "DESIGN.md §6 C11")
 
 claim("C14",
@@ -123,7 +125,7 @@ claim("C10",
 claim("C05",
       "Per-step retention clauses: Core.receive deletes a new bundle only for an unsupported block that demands deletion, leaves known bundles untouched and hands every other new bundle to dispatching; "
       "Core.localDelivery releases the retention constraints only after the agent manager took the bundle and otherwise marks it contraindicated (kept, retried); PurgeConstraints never removes the local-endpoint constraint and adds nothing; "
-      "filterCLAs/epidemic selection clauses shared with C13.",
+      "the per-peer forwarding goroutine reports every failed transmission to the routing algorithm exactly once and names its sender; filterCLAs/epidemic selection clauses shared with C13.",
       "Partial: Core.forward (goroutine fan-out, contraindication on failure, deletion after success), BundleDescriptor.Sync, checkPendingBundles, direct delivery, expiry of clock-less bundles, restarts, crash points and racing failure reports are not decided; "
       "AgentManager.Deliver, bundleDeletion, dispatching, bundleContraindicated are assumed summaries.",
       "DESIGN.md §6 C05, §11.4")
